@@ -88,6 +88,10 @@ type fn struct {
 	grouped  bool   // adjacent parameters of one type share the type (`a, b int`)
 	lambda   bool   // a function literal bound to a local variable of the enclosing function
 	tailProc bool   // a small procedure that is little more than its last statement
+	rcPanics bool   // small function that panics on guardC + n*guardK and recovers
+	rcWatch  bool   // small function that never panics and logs what its deferred recover() sees
+	guardK   int
+	guardC   int
 	lines    [2]int // first and last source line, filled after assembly
 }
 
@@ -2321,6 +2325,8 @@ type fnPlan struct {
 	hdr, ftr  string // function literals: first and last line instead of the declaration's
 	onlyLog   bool   // of the package variables only glog is in scope
 	callProcs bool   // call the small tail procedures first, on several arguments
+	guard     bool   // recovering function: always with the panic guard on the first parameter
+	watch     bool   // the deferred function reports a non-nil recover() through the log
 }
 
 // genFunc writes one function. Layout: parameters, `acc`, optional defer,
@@ -2419,7 +2425,7 @@ func (g *gen) genFunc(p fnPlan) {
 		gv := g.pickGlobalInt()
 		g.w("defer func() {")
 		g.w("\tif r := recover(); r != nil {")
-		if gv != nil && g.r.Bool() {
+		if gv != nil && g.r.Bool() && !p.watch {
 			g.w("\t\t%s = (%s + %d) %% %d", gv.name, gv.name, 1+g.r.Intn(9), gv.bound+1)
 		} else {
 			g.w("\t\tnote(%d)", 1+g.r.Intn(8))
@@ -2459,11 +2465,12 @@ func (g *gen) genFunc(p fnPlan) {
 		}
 		f.impure = true
 	}
-	if p.recovers && len(f.params) > 0 && f.params[0].t == tInt && g.r.Bool() {
+	if p.recovers && len(f.params) > 0 && f.params[0].t == tInt && !g.noPanic && (p.guard || g.r.Bool()) {
 		// a panic at statement level, recovered in this very frame
 		g.f("explicit-panic")
 		f.mayPanic = true
-		g.w("if %s%%%d == %d {", f.params[0].name, 3+g.r.Intn(4), g.r.Intn(3))
+		f.guardK, f.guardC = 3+g.r.Intn(4), g.r.Intn(3)
+		g.w("if %s%%%d == %d {", f.params[0].name, f.guardK, f.guardC)
 		g.w("\tpanic(\"guard\")")
 		g.w("}")
 	}
@@ -2478,6 +2485,7 @@ func (g *gen) genFunc(p fnPlan) {
 	}
 	if p.callProcs {
 		g.callTailProcs()
+		g.callRecoverPair()
 	}
 	for g.budget > 0 {
 		g.stmt(p.depth)
@@ -2850,6 +2858,21 @@ func genProgram(idx int, tuples int) *program {
 		g.noPanic = false
 		g.funcs = append(g.funcs, f)
 		p.funcs = append(p.funcs, f)
+	}
+	// ---- a function that panics and recovers, and one that never panics but
+	// logs what its deferred recover() returns: called one after the other, the
+	// second must see nil
+	if r.Intn(4) > 0 {
+		rp := &fn{name: nm.name(poolHelper, "rp0", 30), rcPanics: true, rets: []ty{tInt}, retBound: modBig - 1,
+			params: []*vr{{name: nm.params(1)[0], t: tInt, bound: 1 << 31}}}
+		g.genFunc(fnPlan{f: rp, stmts: r.Intn(3), depth: 1, recovers: true, deferKind: 1 + r.Intn(2), guard: true})
+		rq := &fn{name: nm.name(poolHelper, "rq0", 30), rcWatch: true, rets: []ty{tInt}, retBound: modBig - 1,
+			params: []*vr{{name: nm.params(1)[0], t: tInt, bound: 1 << 31}}}
+		g.noPanic = true
+		g.genFunc(fnPlan{f: rq, stmts: r.Intn(3), depth: 1, recovers: true, deferKind: 1, watch: true})
+		g.noPanic = false
+		g.funcs = append(g.funcs, rp, rq)
+		p.funcs = append(p.funcs, rp, rq)
 	}
 	// ---- exported functions
 	ne := 2 + r.Intn(2)
